@@ -755,6 +755,35 @@ func GatedBrokerStress(seed int64, d time.Duration) CompResult {
 	return res
 }
 
+// SharedConfigProbe: two encrypt filters built from the same salt / info slices (one configuration, two pipelines).
+// Rotating one of them changes neither the other filter's digests nor the caller's slices.
+func SharedConfigProbe() CompResult {
+	res := CompResult{Name: "shared-config"}
+	salt, info := []byte("salt-of-the-application"), []byte("info-of-the-application")
+	snapS, snapI := append([]byte{}, salt...), append([]byte{}, info...)
+	w := encrep.NewWrapper("shared-config")
+	fA := &encrypt.Filter{Wrapper: w, HmacSalt: salt, HmacInfo: info}
+	fB := &encrypt.Filter{Wrapper: w, HmacSalt: salt, HmacInfo: info}
+	digest := func(f *encrypt.Filter) string {
+		out, err := f.Process(context.Background(), &eventlogger.Event{Type: "t", Payload: &secretPayload{User: "u", Token: "t", Email: "e@x", Digest: "d@x"}, Formatted: map[string][]byte{}})
+		if err != nil || out == nil {
+			return fmt.Sprintf("error: %v", err)
+		}
+		return out.Payload.(*secretPayload).Digest
+	}
+	before := digest(fB)
+	fA.Rotate(encrypt.WithSalt([]byte("s2")), encrypt.WithInfo([]byte("i2")))
+	digest(fA)
+	after := digest(fB)
+	if before != after {
+		res.Problems = append(res.Problems, Problem{"C19", fmt.Sprintf("two encrypt filters were configured from the same salt / info slices; Rotate on one changed the digests of the other: %q before, %q after", before, after)})
+	}
+	if !bytes.Equal(salt, snapS) || !bytes.Equal(info, snapI) {
+		res.Problems = append(res.Problems, Problem{"C19", fmt.Sprintf("Rotate wrote into the caller's configuration slices: salt %q (was %q), info %q (was %q)", salt, snapS, info, snapI)})
+	}
+	return res
+}
+
 type countSink struct {
 	name string
 	n    atomic.Int64
